@@ -460,7 +460,9 @@ impl Expected {
                 // every chunk after the last one that has (partly) been transmitted has not started
                 let last_started = states
                     .iter()
-                    .rposition(|s| matches!(s, ChunkState::Present | ChunkState::Partial(_)))
+                    // (a chunk of which nothing has been transmitted - the output ends exactly where it begins - has
+                    // not started)
+                    .rposition(|s| matches!(s, ChunkState::Present) || matches!(s, ChunkState::Partial(n) if *n > 0))
                     .map(|i| i + 1)
                     .unwrap_or(0);
                 for c in self.chunks.iter_mut().skip(last_started) {
@@ -632,6 +634,13 @@ pub fn test_image() -> (surf_n_term::Image, Position) {
     (surf_n_term::Image::from(s), Position::new(1, 2))
 }
 
+/// one colour (the order of colours in a sixel band depends on the handler instance), six rows (one band)
+pub fn test_image_sixel() -> (surf_n_term::Image, Position) {
+    use surf_n_term::{SurfaceOwned, RGBA};
+    let s = SurfaceOwned::new_with(surf_n_term::Size::new(6, 4), |_| RGBA::new(200, 40, 7, 255));
+    (surf_n_term::Image::from(s), Position::new(1, 2))
+}
+
 pub fn prepare_process() {
     // no capability probing: the constructor must not talk to the terminal
     std::env::set_var("TERM", "dumb");
@@ -670,7 +679,8 @@ pub fn execute(session: &Session, upto: usize, choices: Choices, verbose: bool) 
             vec![(b"\x1b[18t\x1b[14t".to_vec(), b"\x1b[8;24;80t\x1b[4;480;800t".to_vec(), 0)]
         } else {
             vec![
-                (b"\x1b[c".to_vec(), b"\x1b[?62;c".to_vec(), 0),
+                // a "sixel" session's terminal lists attribute 4 (sixel graphics) in its device attributes
+                (b"\x1b[c".to_vec(), if session.name.contains("sixel") { b"\x1b[?62;4c".to_vec() } else { b"\x1b[?62;c".to_vec() }, 0),
                 (b"\x1b[18t\x1b[14t".to_vec(), b"\x1b[8;24;80t\x1b[4;480;800t".to_vec(), 0),
                 (b"\x1b[6n".to_vec(), b"\x1b[3;5R".to_vec(), 0),
             ]
@@ -743,7 +753,9 @@ pub fn execute(session: &Session, upto: usize, choices: Choices, verbose: bool) 
     let mut counter = 0u32;
     let mut poll_index = 0usize;
     let mut stop = false;
-    let mut shadow_handler = surf_n_term::KittyImageHandler::new();
+    let sixel = session.name.contains("sixel");
+    let mut shadow_handler: Box<dyn surf_n_term::ImageHandler> =
+        if sixel { Box::new(surf_n_term::SixelImageHandler::new(None)) } else { Box::new(surf_n_term::KittyImageHandler::new()) };
     let mut last_image_bytes: Vec<u8> = vec![];
     let mut pending_redraw: Option<Vec<u8>> = None;
     let do_poll = |term: &mut SystemTerminal, expected: &mut Expected, t: Option<Duration>, poll_index: &mut usize, outcome: &mut Outcome, stop: &mut bool| {
@@ -826,7 +838,7 @@ pub fn execute(session: &Session, upto: usize, choices: Choices, verbose: bool) 
                 }
             }
             Act::DrawImage => {
-                let (img, pos) = test_image();
+                let (img, pos) = if sixel { test_image_sixel() } else { test_image() };
                 let mut b = vec![];
                 let _ = surf_n_term::ImageHandler::draw(&mut shadow_handler, &mut b, &img, pos);
                 sh.borrow_mut().logf(|| format!("execute(Image) -> {} bytes expected", b.len()));
@@ -1375,6 +1387,16 @@ pub fn sessions_c16() -> Vec<Session> {
         name: "size-request-behind-output",
         acts: vec![Write(8), Poll(Some(0)), Write(3), Poll(Some(0)), Poll(Some(0))],
         allowed: vec![(Inject::Winch, 1)],
+        stall_selects: 0,
+        probe: true,
+        kitty: false,
+    });
+    // the sixel handler (chosen because the terminal lists sixel graphics in its device attributes) serves the second
+    // draw of an image from its cache: that, too, is part of the frame the program is composing
+    v.push(Session {
+        name: "sixel-cached-image-in-frame-then-drop",
+        acts: vec![DrawImage, Poll(Some(0)), Poll(Some(0)), DrawImage, Write(6), FramesDrop, Write(2), Poll(Some(0)), Poll(Some(0))],
+        allowed: vec![],
         stall_selects: 0,
         probe: true,
         kitty: false,
